@@ -228,6 +228,11 @@ void teardown() {
 bool pump(std::string& why) {
     const std::uint64_t one = 1;
     ssize_t w = ::write(W.ctl, &one, sizeof one); (void)w;
+    // errno is whatever the thread's last failing call left behind (an interrupted epoll_wait, say); a successful call does not clear
+    // it.  The batch starts with a hostile leftover so that code which consults errno without a failed call shows.
+    static const int kLeftover[] = {EINTR, EAGAIN, 0, EINTR, ECONNRESET, EBADF, EINTR, EPIPE};
+    static unsigned leftover = 0;
+    errno = kLeftover[leftover++ % (sizeof kLeftover / sizeof kLeftover[0])];
     try {
         W.loop->run();
     } catch (const std::bad_alloc&) { why = "bad_alloc"; return false; }
